@@ -37,7 +37,7 @@ PKGS = {  # abstract package id -> (import path, package name)
 MAX_SOLO = 48
 GENERIC_POS = ("tparam", "targ", "tparamreal")     # the configured type lives in the source package; I1 may be generic
 SEM = ("pos", "other", "srckind", "target", "level", "place")      # dimensions the contract speaks about (TLC state)
-OBS = ("templ", "listing", "fmt", "kinds")                                   # how the case is observed / spelled (TLC constants)
+OBS = ("templ", "listing", "fmt", "kinds", "extra", "tdopt")                                   # how the case is observed / spelled (TLC constants)
 DIMS = SEM + OBS
 
 SRC_KINDS = {"s": "struct{ A int }", "b": "string", "i": "interface{ Ping() }"}
@@ -59,7 +59,9 @@ def _decl_targets(name):
 # pointer); a case picks one pair (observation dimension "kinds"), the abstract names T, TA, R, RA, H, D are concretised as
 # T_s, R_i, ...; the contract does not depend on it, what the templates derive from the type (nil guards, zero values) does
 SHARED = {
-    "orig/foo/t.go": "package foo\n\n" + _decl_sources() + "type U struct{ B int }\n",
+    "orig/foo/t.go": "package foo\n\n" + _decl_sources() + "type U struct{ B int }\n\n" + _decl_targets("R") +
+                     "".join(f"// E{n}_{k} is embedded by interfaces of other packages\ntype E{n}_{k} interface {{\n\tME(e {n}_{k}) (r0 {n}_{k})\n}}\n\n"
+                             for k in SRC_KINDS for n in ("T", "TA")),
     "alt/bar/t.go": f'package bar\n\nimport "{MOD}/orig/foo"\n\n' + _decl_targets("R") + "type R2 struct{ G int }\n\n" +
                     "".join(f"// RA_{k} is an alias: identical to the original type\ntype RA_{k} = foo.T_{k}\n\n" for k in SRC_KINDS),
     "alt2/foo/t.go": "package foo\n\n" + _decl_targets("R") + "type R2 struct{ H int }\n\n" + _decl_sources(),
@@ -81,7 +83,8 @@ def select_cases(rows, obsdims, rng, n, predicted_quota, all_rows=False):
     def full(sem):
         t = rng.choice(obsdims["templ"])
         f = "noop" if t == "probe" else rng.choice(obsdims["fmt"])
-        return tuple(sem) + (t, rng.choice(obsdims["listing"]), f, rng.choice(obsdims["kinds"]))
+        return tuple(sem) + (t, rng.choice(obsdims["listing"]), f, rng.choice(obsdims["kinds"]), rng.choice(obsdims["extra"]),
+                             rng.choice(obsdims["tdopt"]))
 
     normal = [r for r in rows if not r[1]]
     pred = [r for r in rows if r[1]]
@@ -228,7 +231,12 @@ class Case:
         for itf in self.rec["ifaces"]:
             tps = ", ".join(f"{tp['name']} {tp['constraint']}" for tp in itf.get("tparams", []))
             lines.append(f"type {itf['name']}{'[' + tps + ']' if tps else ''} interface {{")
+            if self.other == "embedded" and itf["name"] == "I1":
+                lines.append("\tfoo.E" + self.cn("T" if self.srckind == "named" else "TA"))      # brings ME into the method set
+                used.add("orig")
             for m in itf["methods"]:
+                if self.other == "embedded" and m["name"] == "ME":
+                    continue
                 ps = []
                 for p in m["params"]:
                     t = p["t"]
@@ -280,9 +288,19 @@ class Case:
         kpath = self.srcpath if self.rec["key"]["p"] == "src" else PKGS["orig"][0]
         if second:
             to = self.rec["to2"]
-            return {kpath: {key: {"pkg-path": PKGS[to["p"]][0], "type-name": self.cn(to["n"])}}}
+            return self.more_entries({kpath: {key: {"pkg-path": PKGS[to["p"]][0], "type-name": self.cn(to["n"])}}})
         tp = self.target_pkg()[0]
-        return {kpath: {key: {"pkg-path": tp, "type-name": self.cn(self.rec["to"]["n"])}}}
+        return self.more_entries({kpath: {key: {"pkg-path": tp, "type-name": self.cn(self.rec["to"]["n"])}}})
+
+    def more_entries(self, m):
+        """entries written next to the case's own: the look-alike type of the package with the same NAME (twinmapped), and
+        (spelling dimension) an entry for a type that occurs nowhere -- no effect, and its target must not be imported"""
+        if self.other == "twinmapped":
+            m.setdefault(PKGS["same"][0], {})[self.cn("T" if self.srckind == "named" else "TA")] = {"pkg-path": PKGS["alt"][0], "type-name": "R2"}
+        if self.extra == "unused":
+            m.setdefault(PKGS["orig"][0], {})["Absent"] = {"pkg-path": PKGS["third"][0], "type-name": "H_s"}
+            m.setdefault(PKGS["third"][0], {})["Nothing"] = {"pkg-path": PKGS["same"][0], "type-name": "R2"}
+        return m
 
     def pkg_config(self, with_setting, probe_path, force=False):
         conf = {"all": True, "dir": self.dir, "pkgname": self.pkgname, "filename": self.filename,
@@ -294,10 +312,15 @@ class Case:
             conf["require-template-schema-exists"] = False
         else:
             conf["template"] = self.templ
-        if self.templ == "matryer" and (self.pos in GENERIC_POS or self.target != "alias" or self.level in ("entry2x", "entry2y", "iface2x", "iface2y")):
+        if self.templ == "matryer" and (self.pos in GENERIC_POS or self.target != "alias" or self.other == "twinmapped" or
+                                        self.level in ("entry2x", "entry2y", "iface2x", "iface2y", "over_pi", "over_re")):
             # a replaced signature no longer implements the source interface: the documented switch for that.
             # (With an alias of the original type as replacement the ensure line stays on and must compile.)
             conf["template-data"] = {"skip-ensure": True}
+        if self.tdopt == "opts" and self.templ == "matryer":
+            conf.setdefault("template-data", {}).update({"stub-impl": True, "with-resets": True})
+        elif self.tdopt == "opts" and self.templ == "testify":
+            conf.setdefault("template-data", {})["unroll-variadic"] = False
         entry = {"config": conf}
         m = self.mapping() if with_setting else None
         if self.level == "pkg" and m:
@@ -321,6 +344,14 @@ class Case:
                 e0["replace-type"] = first
                 e1["replace-type"] = second
             ifs["I1"] = {"configs": [e0, e1]}
+        elif self.level == "over_pi":
+            # the same source type at package level (-> the other target) and, more specific, at I1's interface level
+            if with_setting:
+                conf["replace-type"] = self.mapping(second=True)
+            ifs["I1"] = {"config": ({"replace-type": m} if m else {})}
+        elif self.level == "over_re":
+            # ... at top level (see Run.root_mapping) and, more specific, on I1's configs entry
+            ifs["I1"] = {"configs": [({"replace-type": m} if m else {})]}
         elif self.level in ("iface2x", "iface2y"):
             # two interfaces in one file, the same source type mapped to different targets at interface level
             m2 = self.mapping(second=True) if with_setting else None
@@ -337,9 +368,13 @@ class Case:
         return entry
 
     def group_key(self):
-        if self.level != "root":
+        if self.level not in ("root", "over_re"):
             return None
-        return (self.srckind, self.target, self.kinds, self.id if self.target == "dstpkg" or self.pos in GENERIC_POS else "")
+        return (self.level, self.srckind, self.target, self.kinds, self.other == "twinmapped", self.extra,
+                self.id if self.target == "dstpkg" or self.pos in GENERIC_POS else "")
+
+    def root_mapping(self):
+        return self.mapping(second=(self.level == "over_re"))
 
 
 def refs(t):
@@ -370,7 +405,7 @@ def plan_runs(cases, nchunks):
         else:
             groups.setdefault(g, []).append(c)
     for g, cs in sorted(groups.items()):
-        runs.append(Run(f"r{len(runs)}", cs, cs[0].mapping()))
+        runs.append(Run(f"r{len(runs)}", cs, cs[0].root_mapping()))
     for i in range(nchunks):
         cs = rest[i::nchunks]
         if cs:
@@ -432,7 +467,7 @@ def run_tree(ctx, binp, tree, runs, with_setting, probe_path):
                     per_case[c.id] = res
             else:
                 for c in run.cases:
-                    retry.append(Run(f"{run.rid}-{c.id}", [c], c.mapping() if run.root_mapping else None))
+                    retry.append(Run(f"{run.rid}-{c.id}", [c], c.root_mapping() if run.root_mapping else None))
         if len(retry) > MAX_SOLO:
             # bound the cost of a tree in which every batch fails: judge a prefix, leave the rest unevaluated
             for r in retry[MAX_SOLO:]:
@@ -1174,7 +1209,7 @@ def run(ctx):
         n = 6000 if thorough else 220
         chosen, uncovered = select_cases(rows, obsdims, ctx.rng, n, 40 if thorough else 6)
         for d in unexpected_pred[:20]:
-            chosen.append(tuple(d) + ("testify", "min", "gofmt", "ss"))
+            chosen.append(tuple(d) + ("testify", "min", "gofmt", "ss", "none", "plain"))
     if uncovered:
         raise MachineryError(f"sampling left {uncovered} dimension-value pairs uncovered")
     sem_wanted = sorted({d[:len(SEM)] for d in chosen})
